@@ -112,6 +112,9 @@ DeleteGroup(sid, tid, gid) ==
 Join(c, sid, tid, gid) == Mem' = Mem \cup {<<c, sid, tid, gid>>} /\ UNCHANGED <<S, T, G, Cnt, U>>
 Leave(c, sid, tid, gid) == Mem' = Mem \ {<<c, sid, tid, gid>>} /\ UNCHANGED <<S, T, G, Cnt, U>>
 Disconnect(c) == Mem' = { m \in Mem : m[1] # c } /\ UNCHANGED <<S, T, G, Cnt, U>>
+(* a client that misses its heartbeat is removed by the heartbeat verification exactly like one whose connection dropped; *)
+(* every client that did ping stays                                                                                     *)
+Expire(c) == Disconnect(c)
 
 (***************************** users *****************************)
 CanCreateUser(name) == name \notin UserNames
